@@ -4,6 +4,17 @@ import LeptosModel.Proofs.ReactivePrim
 -/
 namespace Leptos.Reactive
 
+/-- for a well-formed program whose memo bodies use tracked reads only, the log written between `s` and
+`s'` is glitch-free -/
+def GFI (p : Prog) (s s' : State) : Prop := WF p = true → MemoTracked p → StateGF p s s'
+
+theorem GFI.refl (p : Prog) (s : State) : GFI p s s := fun _ _ => StateGF.refl p s
+theorem GFI.trans {p : Prog} {s s' s'' : State} (h1 : GFI p s s') (h2 : GFI p s' s'') : GFI p s s'' :=
+  fun hwf htr => (h1 hwf htr).trans (h2 hwf htr)
+theorem GFI.of_eq {p : Prog} {s s' : State} (hl : s'.log = s.log)
+    (hv : ∀ i, (s'.get i).val = (s.get i).val) : GFI p s s' :=
+  fun _ _ => StateGF.of_eq hl (SigEq.of_val (fun i _ _ => hv i))
+
 /-- post-condition of `update_if_necessary` on node `m` -/
 structure UpdPost (p : Prog) (s : State) (m : Nat) (r : State × Bool) : Prop where
   inv : InvR p r.1
@@ -18,6 +29,7 @@ structure UpdPost (p : Prog) (s : State) (m : Nat) (r : State × Bool) : Prop wh
   valCh : ValCh s r.1
   runRel : RunRel s r.1
   ss : SrcStatic p s → SrcStatic p r.1
+  gf : GFI p s r.1
 
 def UpdOK (p : Prog) (u : State → Nat → State × Bool) (f : Nat) : Prop :=
   ∀ s x, InvR p s → x < f → (s.get x).running = false → (∀ r, (s.get r).running = true → x < r) →
@@ -26,7 +38,7 @@ def UpdOK (p : Prog) (u : State → Nat → State × Bool) (f : Nat) : Prop :=
 theorem UpdPost.refl {p : Prog} {s : State} {m : Nat} (h : InvR p s)
     (hc : (s.get m).kind = .memo → (s.get m).st = .clean) : UpdPost p s m (s, false) :=
   ⟨h, Frame.refl s _, rfl, fun _ => rfl, hc, rfl, fun hc => (by cases hc), fun _ _ _ hd => .inl hd,
-   ValCh.of_val_eq (fun _ => rfl), RunRel.of_eq (fun _ => rfl), fun h => h⟩
+   ValCh.of_val_eq (fun _ => rfl), RunRel.of_eq (fun _ => rfl), fun h => h, GFI.refl p s⟩
 
 /-- relation between the states before and after evaluating part of the body of the running memo `m` -/
 structure EvalPost (p : Prog) (s s' : State) (m : Nat) (L : List (Nat × Int × Nat)) : Prop where
@@ -41,11 +53,12 @@ structure EvalPost (p : Prog) (s s' : State) (m : Nat) (L : List (Nat × Int × 
   obs : s'.obs = s.obs
   runRel : RunRel s s'
   ss : SrcStatic p s → SrcStatic p s'
+  gf : GFI p s s'
 
 theorem EvalPost.refl {p : Prog} {s : State} {m : Nat} (h : InvR p s) (hl : RunLoc s m) :
     EvalPost p s s m [] :=
   ⟨h, hl, Frame.refl s _, fun _ => rfl, rfl, rfl, by simp, ValCh.of_val_eq (fun _ => rfl), rfl,
-   RunRel.of_eq (fun _ => rfl), fun h => h⟩
+   RunRel.of_eq (fun _ => rfl), fun h => h, GFI.refl p s⟩
 
 theorem EvalPost.trans {p : Prog} {s s1 s2 : State} {m : Nat} {L1 L2}
     (h1 : EvalPost p s s1 m L1) (h2 : EvalPost p s1 s2 m L2) : EvalPost p s s2 m (L1 ++ L2) :=
@@ -53,7 +66,7 @@ theorem EvalPost.trans {p : Prog} {s s1 s2 : State} {m : Nat} {L1 L2}
    h2.subs.trans h1.subs, h2.ver.trans h1.ver, by rw [h2.seen, h1.seen, List.append_assoc],
    h1.valCh.trans h2.valCh h1.frame h2.frame h1.obs, h2.obs.trans h1.obs,
    h1.runRel.trans h2.runRel (fun i hi => (h1.frame.clean i hi).1) (fun i hi => (h2.frame.clean i hi).1),
-   fun h => h2.ss (h1.ss h)⟩
+   fun h => h2.ss (h1.ss h), h1.gf.trans h2.gf⟩
 
 /-- appending a ghost `seen` entry to the running node -/
 theorem appendSeen_inv {p : Prog} {s : State} {m : Nat} (h : InvR p s) (hm : m < s.nodes.length)
@@ -176,6 +189,7 @@ structure ReadPost (p : Prog) (s s2 : State) (m x : Nat) (v : Int) : Prop where
   valCh : ValCh s s2
   runRel : RunRel s s2
   ss : SrcStatic p s → SrcStatic p s2
+  gf : GFI p s s2
 
 theorem readNode_spec {p : Prog} {u : State → Nat → State × Bool} {f : Nat} (hu : UpdOK p u f)
     {m : Nat} (hmf : m ≤ f) {s : State} (h : InvR p s) (hl : RunLoc s m) {x : Nat} (hx : x < m)
@@ -212,7 +226,7 @@ theorem readNode_spec {p : Prog} {u : State → Nat → State × Bool} {f : Nat}
     have hs := h1.sigOk x hxp hk
     obtain ⟨v, hv⟩ := hs.2.2
     exact ⟨h1, f1, t.obs, t.running, t.kind m, t.sources_m, t.seen m, t.subs hxm m (Ne.symm hxm), t.ver m,
-      hs.1, by rw [hv]; rfl, ValCh.of_val_eq t.val, RunRel.of_eq t.runs, hss1⟩
+      hs.1, by rw [hv]; rfl, ValCh.of_val_eq t.val, RunRel.of_eq t.runs, hss1, GFI.of_eq t.log t.val⟩
   | memo =>
     simp only
     have hp := hu s1 x h1 (by omega) hxnr (by
@@ -230,7 +244,8 @@ theorem readNode_spec {p : Prog} {u : State → Nat → State × Bool} {f : Nat}
       fun i => (hp.running i).trans (t.running i), cf.1.trans (t.kind m), ?_, ?_, ?_, ?_, hc, ?_,
       (ValCh.of_val_eq t.val).trans hp.valCh f1 (hp.frame.mono (by omega)) t.obs,
       (RunRel.of_eq t.runs).trans hp.runRel (fun i hi => by rw [t.st]; exact hi)
-        (fun i hi => (hp.frame.clean i hi).1), fun h => hp.ss (hss1 h)⟩
+        (fun i hi => (hp.frame.clean i hi).1), fun h => hp.ss (hss1 h),
+      (GFI.of_eq t.log t.val).trans hp.gf⟩
     · exact cf.2.2.1.trans t.sources_m
     · exact cf.2.2.2.2.2.2.1.trans (t.seen m)
     · exact cf.2.2.2.1.trans (t.subs hxm m (Ne.symm hxm))
@@ -240,7 +255,8 @@ theorem readNode_spec {p : Prog} {u : State → Nat → State × Bool} {f : Nat}
 
 theorem rd_evalPost {p : Prog} {s s2 : State} {m x : Nat} {v : Int} (hl : RunLoc s m)
     (hx : x < m) (rp : ReadPost p s s2 m x v) (ev : Ev) (hev : ∀ i, ev ≠ .unjust i)
-    (hev' : ∀ i, ev ≠ .ran i) :
+    (hev' : ∀ i, ev ≠ .ran i)
+    (hg : WF p = true → MemoTracked p → GlitchFree p (envOf s2) [ev] (envOf s2)) :
     EvalPost p s ((s2.upd m fun n => { n with seen := n.seen ++ [(x, v, (s2.get x).ver)] }).emit ev) m
       [(x, v, (s2.get x).ver)] := by
   have hr2 : (s2.get m).running = true := by rw [rp.running]; exact hl.running
@@ -313,7 +329,10 @@ theorem rd_evalPost {p : Prog} {s s2 : State} {m x : Nat} {v : Int} (hl : RunLoc
     fun h => (rp.ss h).mono (fun w y hy => by
       by_cases hw : w = m
       · subst hw; rw [gm] at hy; exact hy
-      · rw [go w hw] at hy; exact hy)⟩
+      · rw [go w hw] at hy; exact hy),
+    fun hwf htr => (rp.gf hwf htr).trans ⟨[ev], hlog, by
+      have := (hg hwf htr).append (.nil (SigEq.of_val (s := s2) (s' := s') (fun i _ _ => valE i)))
+      simpa using this⟩⟩
   · refine ⟨hobs.trans (rp.obs.trans hl.obs), (kE m).trans (rp.kind_m.trans hl.kind), by rw [runE]; exact hr2,
       ?_, ?_, ?_⟩
     · intro r hr; rw [runE, rp.running] at hr; exact hl.lowest r hr
@@ -393,7 +412,9 @@ theorem rdU_evalPost {p : Prog} {u : State → Nat → State × Bool} {f : Nat} 
   have hclean : ∀ i, (s.get i).st = .clean → (s2.get i).st = .clean ∧ (s2.get i).val = (s.get i).val :=
     up.frame.clean
   refine ⟨inv3, ⟨hl.obs, cfk.trans hl.kind, hrun2, ?_, ?_, ?_⟩, fr, hrunE, cfsubs,
-    cfver, by rw [List.append_nil]; exact cfseen, ?_, rfl, up.runRel, up.ss⟩
+    cfver, by rw [List.append_nil]; exact cfseen, ?_, rfl, up.runRel, up.ss,
+    fun hwf htr => ((StateGF.of_eq rfl (SigEq.refl _ _) : StateGF p s ({ s with obs := none } : State)).trans
+      (up.gf hwf htr)).trans (StateGF.of_eq rfl (SigEq.refl _ _))⟩
   · intro r hr; exact hl.lowest r (by rw [← hrunE]; exact hr)
   · show (s2.get m).sources = (s2.get m).seen.map (·.1)
     rw [cfsrc, cfseen]; exact hl.srcSeen
@@ -431,7 +452,15 @@ theorem evalE_spec {p : Prog} {u : State → Nat → State × Bool} {f : Nat} (h
       simp only [evalE, if_true]
       generalize readNode u s x = r at rp
       obtain ⟨s2, v⟩ := r
-      exact ⟨_, [], rd_evalPost hl hb rp (.rdv m x v) (by intro i; simp) (by intro i; simp), fun ρ hρ rest => by
+      have hxp : x < p.length := by
+        have := s.lt_of_running hl.running
+        rw [← h.len]; omega
+      have hg : WF p = true → MemoTracked p → GlitchFree p (envOf s2) [.rdv m x v] (envOf s2) := by
+        intro hwf htr
+        have hc := rp.inv.clean_correct hwf htr x hxp (by rw [rp.frame.kind]; exact hkx) rp.clean_x
+        rw [rp.val_x] at hc
+        exact .rdv (Option.some.inj hc).symm (.nil (SigEq.refl _ _))
+      exact ⟨_, [], rd_evalPost hl hb rp (.rdv m x v) (by intro i; simp) (by intro i; simp) hg, fun ρ hρ rest => by
         have := hρ _ List.mem_cons_self
         simp only [evalSnap, List.nil_append]
         rw [this]⟩
